@@ -1,4 +1,5 @@
 import TIV.C05.Proofs
+import TIV.C05.WfProofs
 import TIV.Common.BlockProofs
 import TIV.Common.GfxProofs
 /-!
@@ -646,5 +647,60 @@ example : iterFrames ⟨some "<", 3, some "^", 1⟩ 2 (.bool true) 1
     [⟨1, 1, [.glyph .upper]⟩, ⟨2, 1, [.glyph .upper, .glyph .lower]⟩] =
     [some [.glyph .upper, .glyph .blank, .glyph .blank], some [.glyph .upper, .glyph .lower, .glyph .blank]] := by
   decide
+
+/-! ## Part 5 — the theorems are about bytes: the Lean lexer reads every padded output back -/
+
+/-- `pad` of a well-formed render with a readable fill (`Glyph.ch c` needs `isOther c`; blank, the
+    half blocks and the empty fill need nothing) is well-formed -/
+theorem pad_wf (f : Fill) (hf : f.wf = true) (l t r b rw : Nat) (render : List Tok) (hr : Lex.WfToks render) :
+    Lex.WfToks (padToks f l t r b rw render) := wf_padToks f hf l t r b rw render hr
+
+/-- ROUND TRIP: the strict lexer `TIV.Lex.lex` reads the bytes `Padding.pad` writes back into exactly
+    the tokens of the model's padded output -/
+theorem lex_pad (f : Fill) (hf : f.wf = true) (l t r b rw : Nat) (render : List Tok) (hr : Lex.WfToks render) :
+    Lex.lex (toksStr (padToks f l t r b rw render)).toList = some (padToks f l t r b rw render) :=
+  Lex.lex_toksStr _ (wf_padToks f hf l t r b rw render hr)
+
+theorem lex_padding_pad (p : Padding) (hf : p.fill.wf = true) (render : List Tok) (rw rh : Nat) (out : List Tok)
+    (hr : Lex.WfToks render) (h : p.pad render rw rh = .ok out) : Lex.lex (toksStr out).toList = some out := by
+  cases hd : exactDims p rw rh with
+  | error e => simp only [Padding.pad, hd] at h; cases h
+  | ok d =>
+    obtain ⟨l, t, r, b⟩ := d
+    rw [(padded_size_agrees p rw rh l t r b hd).2.2.2.2.2.1 render] at h
+    injection h with h
+    rw [← h]; exact lex_pad p.fill hf l t r b rw render hr
+
+/-- the same for the old API: `_format_render` outputs and hence every `ImageIterator` frame -/
+theorem lex_format_render (ha va : Option String) (width height cols lines : Nat) (render : List Tok)
+    (hr : Lex.WfToks render) :
+    Lex.lex (toksStr (formatRender ha width va height cols lines render)).toList =
+      some (formatRender ha width va height cols lines render) :=
+  Lex.lex_toksStr _ (wf_formatRender ha va width height cols lines render hr)
+
+theorem lex_iter_frame (f : Fmt) (rep : Int) (c : CachedArg) (nFrames : Nat) (steps : List IterStep)
+    (hr : ∀ s ∈ steps, Lex.WfToks s.render) (k : Nat) (fr : List Tok)
+    (h : (iterFrames f rep c nFrames steps)[k]? = some (some fr)) : Lex.lex (toksStr fr).toList = some fr := by
+  obtain ⟨j, sj, sk, _, _, h3, _, _, h6, _⟩ := iter_frames_padded f rep c nFrames steps k fr h
+  rw [h6]
+  exact lex_format_render _ _ _ _ _ _ _ (hr sj (List.mem_of_getElem? h3))
+
+/-- PAD_BLOCK ON BYTES: whatever the lexer reads from the bytes of the padded output has the box
+    effect of `pad_block` — the box theorems are statements about the bytes written -/
+theorem pad_block_bytes (K : TermKind → Prop) (f : Fill) (hf : f.wf = true) (l tp r b w h : Nat) (m : SgrMode)
+    (S : Nat → Nat → Prop) (lines : List (List Tok)) (hlen : lines.length = h) (hh : 0 < h) (hw : 0 < w)
+    (hlf : ∀ ln ∈ lines, Tok.lf ∉ ln) (hwf : ∀ ln ∈ lines, Lex.WfToks ln)
+    (hOK : ∀ i (hi : i < lines.length), LineOK K w h i m (S i) lines[i])
+    (t : Term) (r0 x : Nat) (hK : K t.kind) (hlm : t.lm = x) (hR : Ready t r0 x (l + w + r) (tp + h + b) 0)
+    (ts : List Tok) (hlex : Lex.lex (toksStr (padToks f l tp r b w (joinLines lines))).toList = some ts) :
+    BlockEffectC t (t.run ts) r0 x (l + w + r) (tp + h + b)
+      (PadWrite f l tp w h r0 x) (fun di dj => ∃ k, k < tp + h + b ∧ padCover f l tp r w h S k di dj) := by
+  rw [lex_pad f hf l tp r b w _ (Lex.wf_joinLines lines hwf)] at hlex
+  injection hlex with hlex
+  rw [← hlex]
+  exact (pad_block K f l tp r b w h m S lines hlen hh hw hlf hOK t r0 x hK hlm hR).1
+
+example : Fill.wf (.glyph (.ch '#')) = true ∧ Fill.wf (.glyph .blank) = true ∧ Fill.wf .empty = true ∧
+    Fill.wf (.glyph (.ch ' ')) = false := by decide
 
 end TIV.C05
